@@ -237,12 +237,10 @@ def setup(ctx):
     M = taps.mod("menpo.shape.mesh.base")
     C = taps.mod("menpo.shape.mesh.coloured")
     T = taps.mod("menpo.shape.mesh.textured")
-    taps.tap(ctx, M.TriMesh, "from_mask", MaskMonitor())
-    taps.tap(ctx, C.ColouredTriMesh, "from_mask", MaskMonitor())
-    taps.tap(ctx, T.TexturedTriMesh, "from_mask", MaskMonitor())
-    taps.tap(ctx, M.TriMesh, "from_tri_mask", MaskMonitor(tri=True))
+    taps.tap_definers(ctx, "from_mask", lambda c: MaskMonitor(), base=M.TriMesh)
+    taps.tap_definers(ctx, "from_tri_mask", lambda c: MaskMonitor(tri=True), base=M.TriMesh)
     for q in ("tri_areas", "edge_lengths", "unique_edge_indices", "boundary_tri_index", "tri_normals", "vertex_normals"):
-        taps.tap(ctx, M.TriMesh, q, GeomMonitor(q))
+        taps.tap_definers(ctx, q, lambda c, q=q: GeomMonitor(q), base=M.TriMesh)
 
 
 # --------------------------------------------------------------------------------- generators
